@@ -259,7 +259,7 @@ def rule_n5(F):
     """Out-of-range positions give None: in the hand-written index arithmetic of the string views, no `Some(..)` is
     produced unless the start index has been looked up in the string on the way there."""
     from .c08 import deps
-    r = RuleResult("C17.N5", "string views: every Some(..) result is preceded, on every path, by a successful lookup of the start index in the string (and of every index the value is computed from)", floor=4)
+    r = RuleResult("C17.N5", "string views: every Some(..) result is preceded, on every path, by a successful lookup of the start index in the string (and of every index the value is computed from)", floor=2)
     nfn = 0
     for p in sorted(F.paths()):
         if not re.match(r"^value::string::String(Bytes|Chars|Lines)::\w+$", p):
@@ -348,6 +348,13 @@ def rule_n5(F):
                             and mir.is_place_op(t["args"][0]) and mir.origin_key(b, defs, t["args"][0][1]) == "arg%d" % q:
                         v += g["bad"]
                         why.append("index is 0 (checked_sub(1) is None) line %d" % t["line"])
+                    # `(q - first).checked_sub(1)` came back None: q equals the first index, whose own lookup is required anyway
+                    elif t["k"] == "call" and hir.last(mir.callee_def(t)) == "checked_sub" and len(t["args"]) == 2 and q != idx_params[0] \
+                            and (mir.op_const(t["args"][1]) or {}).get("v") == 1 and mir.is_place_op(t["args"][0]) \
+                            and D(t["args"][0]) == {"arg%d" % q, "arg%d" % idx_params[0]} \
+                            and any(hir.last(mir.callee_def(b.blocks[x]["term"]) or "") in ("checked_sub", "sub", "saturating_sub") for x in mir.back_calls(b, defs, t["args"][0][1][0])):
+                        v += g["bad"]
+                        why.append("index equals the first index (difference.checked_sub(1) is None) line %d" % t["line"])
             return v, why
         val = {q: validators(q) for q in idx_params}
         n = 0
